@@ -131,8 +131,9 @@ class MdConfig:
 
 # ---- the world -----------------------------------------------------------------------------------------------
 class MdWorld:
-    def __init__(self, digital_rf, root, cfg, deep=False, rf=None):
-        """rf: None or dict(fc_ms=, sc=, cont=) - also create an RF channel <top>/ch0 whose metadata directory is the channel"""
+    def __init__(self, digital_rf, root, cfg, deep=False, rf=None, late_md=False):
+        """rf: None or dict(fc_ms=, sc=, cont=) - also create an RF channel <top>/ch0 whose metadata directory is the channel
+        late_md: the metadata channel (its directory, its properties) comes into being with the first metadata write call"""
         self.drf = digital_rf
         self.cfg = cfg
         self.deep = deep
@@ -142,7 +143,7 @@ class MdWorld:
         self.top = os.path.join(root, "top")
         self.chdir = os.path.join(self.top, "ch0")
         self.mddir = os.path.join(self.chdir, "metadata")
-        os.makedirs(self.mddir)
+        os.makedirs(self.chdir if late_md else self.mddir)
         self.ids = Ids()
         self.sparse = False     # a sample without fields has been written
         self.tokens = {}
@@ -155,7 +156,7 @@ class MdWorld:
             self.rfw = digital_rf.DigitalRFWriter(self.chdir, np.dtype("i2"), rf["sc"], rf["fc_ms"], cfg.base, cfg.n, cfg.d,
                                                   is_complex=False, num_subchannels=1, is_continuous=rf.get("cont", False),
                                                   marching_periods=False)
-        self.writer = digital_rf.DigitalMetadataWriter(self.mddir, cfg.sc, cfg.fc, cfg.n, cfg.d, cfg.prefix)
+        self.writer = None if late_md else digital_rf.DigitalMetadataWriter(self.mddir, cfg.sc, cfg.fc, cfg.n, cfg.d, cfg.prefix)
         self.h_init = self.token()
 
     # -- hashing --------------------------------------------------------------------------------------------
@@ -213,7 +214,7 @@ class MdWorld:
     def raw_files(self, values=True):
         files = []
         pat = re.compile(r"^" + re.escape(self.cfg.prefix) + r"@(\d+)\.h5$")
-        for sub in sorted(os.listdir(self.mddir)):
+        for sub in (sorted(os.listdir(self.mddir)) if os.path.isdir(self.mddir) else []):
             sp = os.path.join(self.mddir, sub)
             if not os.path.isdir(sp):
                 continue
@@ -270,7 +271,14 @@ class MdWorld:
             ev["fields"] = [self._describe_leaf(fl[p]) for p in self.cfg.schema]
         before = self.raw_keys()
         arg = real[0] if form == "single" else real
-        _, exc = self._call(ev, lambda: self.writer.write(arg, data))
+        def do():
+            if self.writer is None:
+                os.makedirs(self.mddir, exist_ok=True)
+                c = self.cfg
+                self.writer = self.drf.DigitalMetadataWriter(self.mddir, c.sc, c.fc, c.n, c.d, c.prefix)
+            return self.writer.write(arg, data)
+
+        _, exc = self._call(ev, do)
         files = self.raw_files()
         after = {r[0] for f in files for r in f["rows"]}
         ev["resp"] = "ok" if exc is None else "refused"
